@@ -275,6 +275,9 @@ structure Cfg where
   noPrune : Bool := false
   fixedEmpty : Bool := false       -- repaired downloadBlob: "" is rejected as an invalid digest
   fixedDup : Bool := false         -- repaired skipVerify: the first answer for a digest is kept
+  verifyBeforeRename : Bool := false  -- proposed (C03-verifywindow): blobDownload.run hashes `-partial` and renames it
+                                   -- only if the digest matches (a mismatch fails the transfer for every waiter);
+                                   -- for one pull at a time this is observationally the same as `verifyEarly`
   verifyEarly : Bool := false      -- repaired PullModel (F6): every fresh layer is verified right after
                                    -- its download; there is no verify loop (and no skipVerify) afterwards
 
@@ -729,5 +732,105 @@ def pull (cfg : Cfg) (hash : Bytes → Digest) (name : Name) (reg : Registry) (s
           if cfg.noPrune || deleteMap.isEmpty then st2.blobs
           else removeBlobs (usedRefs mans) deleteMap st2.blobs
         (.ok (), { st2 with manifests := mans, blobs := blobs' }, ⟨s.net, s.renamed⟩)
+
+/-! ## Two overlapping pulls that share a layer (`blobDownloadManager`)
+
+A pull that needs a digest another pull is already transferring does not start a second transfer: it
+finds the entry in `blobDownloadManager`, waits on the same `blobDownload` and gets the same result
+(`b.err`).  `downloadBlob` reports that as *not* a cache hit, so the joining pull verifies the blob
+itself before it installs its manifest. -/
+
+/-- what the transfer the pull joins ends with -/
+inductive JoinRes
+  | done (c : Bytes)     -- every part completed; `c` was renamed into place
+  | failed (e : Err)
+
+/-- the download loop of a pull that joins the in-flight transfer of `x` (result `jr`); every other
+    layer is handled as in `dlLoop` -/
+def dlLoopJ (cfg : Cfg) (hash : Bytes → Digest) (reg : Registry) (sc : Scripts) (x : Digest) (jr : JoinRes) :
+    List Layer → DlState → Outcome × DlState
+  | [], s => (.ok (), s)
+  | l :: ls, s =>
+    if l.digest = .ok x then
+      match jr with
+      | .failed e => (.err e, s)
+      | .done c =>
+        if cfg.verifyEarly && hash c != x then
+          -- the joining pull verifies what it is about to install, too: mismatch ⇒ removed, error
+          (.err .digestMismatch, { s with st := { s.st with blobs := upd s.st.blobs x none } })
+        else
+          dlLoopJ cfg hash reg sc x jr ls
+            { s with st := { s.st with blobs := upd s.st.blobs x (some c) }
+                     skip := markSkip cfg x false s.skip, renamed := s.renamed ++ [x] }
+    else
+      match dlLoop cfg hash reg sc [l] s with
+      | (.ok (), s') => dlLoopJ cfg hash reg sc x jr ls s'
+      | r => r
+
+/-- `PullModel` of a pull that joins the transfer of `x` -/
+def pullJ (cfg : Cfg) (hash : Bytes → Digest) (name : Name) (reg : Registry) (sc : Scripts) (x : Digest)
+    (jr : JoinRes) (st : Store) : Outcome × Store × Log :=
+  let net0 : Net := { tok := sc.token }
+  match mrr cfg reg.realm (.pass .served) Policy.dflt 2 sc.manifest net0 with
+  | (.err _, _, net1, _) => (.err .manifest, st, ⟨net1, []⟩)
+  | (.panic p, _, net1, _) => (.panic p, st, ⟨net1, []⟩)
+  | (.ok .badjson, _, net1, _) => (.err .manifest, st, ⟨net1, []⟩)
+  | (.ok .served, _, net1, _) =>
+    let m := reg.manifest
+    match dlLoopJ cfg hash reg sc x jr m.all ⟨st, net1, [], [], false⟩ with
+    | (.err e, s) => (.err e, s.st, ⟨s.net, s.renamed⟩)
+    | (.panic p, s) => (.panic p, s.st, ⟨s.net, s.renamed⟩)
+    | (.ok (), s) =>
+      match (if cfg.verifyEarly then (.ok (), s.st) else verifyLoop hash s.skip m.all s.st) with
+      | (.err e, st2) => (.err e, st2, ⟨s.net, s.renamed⟩)
+      | (.panic p, st2) => (.panic p, st2, ⟨s.net, s.renamed⟩)
+      | (.ok (), st2) =>
+        (.ok (), { st2 with manifests := insertM name (.readable m) st2.manifests }, ⟨s.net, s.renamed⟩)
+
+inductive JoinMode
+  | during          -- B arrives while A transfers x: B joins, both wait, each verifies
+  | duringCancelB   -- … and B's caller goes away as soon as B has joined
+  | duringCancelA   -- … and A's caller goes away once B has joined: the transfer goes on for B
+  | atVerify        -- B runs from start to end while A is between the rename of x and its verification
+deriving DecidableEq, Repr
+
+def joinResOf : R Bytes → JoinRes
+  | .ok c => .done c
+  | .err e => .failed e
+  | .panic _ => .failed .net
+
+/-- two overlapping pulls A and B (different names, no old manifests) whose manifests both start with the
+    missing layer `x` and share nothing else; `x`'s transfer is A's (A's scripts) -/
+def pull2 (cfg : Cfg) (hash : Bytes → Digest) (mode : JoinMode) (x : Digest)
+    (nameA : Name) (regA : Registry) (scA : Scripts) (nameB : Name) (regB : Registry) (scB : Scripts)
+    (st : Store) : Outcome × Outcome × Store :=
+  let tx := downloadLayer cfg regA x (lookupS x scA.layers) (st.partials x) { tok := [] }
+  let jr := joinResOf tx.1
+  match mode with
+  | .during =>
+    let (oA, stA, _) := pull cfg hash nameA regA scA st
+    let (oB, stB, _) := pullJ cfg hash nameB regB scB x jr stA
+    (oA, oB, stB)
+  | .duringCancelB =>
+    let (oA, stA, _) := pull cfg hash nameA regA scA st
+    (oA, .err .canceled, stA)
+  | .duringCancelA =>
+    -- the transfer's own effects (records / -partial) happen once, whoever is still waiting
+    let stT : Store := { st with partials := upd st.partials x tx.2.1 }
+    let (oB, stB, _) := pullJ cfg hash nameB regB scB x jr stT
+    (.err .canceled, oB, stB)
+  | .atVerify =>
+    match (match tx.1 with
+      | .ok c => if cfg.verifyBeforeRename && hash c != x then R.err Err.digestMismatch else R.ok c
+      | r => r) with
+    | .ok c =>
+      let stMid : Store := { st with blobs := upd st.blobs x (some c), partials := upd st.partials x tx.2.1 }
+      let (oB, stB, _) := pull cfg hash nameB regB scB stMid          -- x is a "cache hit" for B
+      let (oA, stA, _) := pullJ cfg hash nameA regA scA x (.done c) stB
+      (oA, oB, stA)
+    | _ =>
+      let (oA, stA, _) := pull cfg hash nameA regA scA st
+      let (oB, stB, _) := pull cfg hash nameB regB scB stA
+      (oA, oB, stB)
 
 end OllamaVerif.Pull
